@@ -345,8 +345,10 @@ class WARCRecorder(object):
                 _('Rolling back file {filename} to length {length}.'),
                 filename=self._warc_filename, length=before_offset
             )
-            with open(self._warc_filename, mode='wb') as out_file:
-                out_file.truncate(before_offset)
+            if os.path.exists(self._warc_filename):
+                # Not 'wb': that would discard the earlier records.
+                with open(self._warc_filename, mode='r+b') as out_file:
+                    out_file.truncate(before_offset)
 
             raise error
         finally:
